@@ -942,7 +942,7 @@ fn map_order_oracle<K: Z + Ord + Eq + std::hash::Hash, V: Z>(tera: &Tera, m: &BT
     }
     out.checks += 1;
     if texts.iter().any(|t| *t != texts[0] || t.starts_with("panic")) {
-        out.fails.push(format!("the same map prints differently (or cannot be inserted): {texts:?}"));
+        out.fails.push(format!("the same map prints differently (or cannot be inserted): {texts:?}; map = {}", m.sval()));
     }
 }
 
@@ -1764,9 +1764,12 @@ fn main() {
         }
         // shrink by selection: of all failing values of this type report the smallest ones
         let mut failing: Vec<usize> = tr.outs.iter().enumerate().filter(|(_, (_, o))| !o.fails.is_empty()).map(|(vi, _)| vi).collect();
-        failing.sort_by_key(|vi| tr.outs[*vi].0.len());
+        failing.sort_by_key(|vi| { let d = &tr.outs[*vi].0; d.len() + if d.starts_with("hist (panic") || d.starts_with("random value") { 1_000_000 } else { 0 } });
         for vi in failing.iter().take(2) {
-            cands.push((tr.outs[*vi].0.len(), ti, *vi, failing.len()));
+            // descriptions that are not an input by themselves go last
+            let d = &tr.outs[*vi].0;
+            let penalty = if d.starts_with("hist (panic") || d.starts_with("random value") { 1_000_000 } else { 0 };
+            cands.push((d.len() + penalty, ti, *vi, failing.len()));
         }
         for (_vi, (sv, o)) in tr.outs.iter().enumerate() {
             report.evaluations += 1;
